@@ -23,6 +23,7 @@ import (
 	"net"
 	"strconv"
 	"sync"
+	"sync/atomic"
 	"time"
 
 	fmux "github.com/hashicorp/yamux"
@@ -204,6 +205,7 @@ type Peer struct {
 	conns         []net.Conn     // every logical connection opened (non-mux mode: separate transports)
 	raws          []*simnet.Conn // every transport connection dialled
 	q             *peerQuic
+	PauseRead     atomic.Bool // the reader stops taking bytes off the control connection (a peer that has stopped reading)
 	cmu           sync.Mutex
 	dropped       bool // Drop was called: the peer is gone and opens nothing any more
 }
@@ -376,6 +378,9 @@ func (p *Peer) Login(user, runID string, pool int) (M, error) {
 func (p *Peer) reader() {
 	seq := 0
 	for {
+		for p.PauseRead.Load() {
+			time.Sleep(50 * time.Millisecond)
+		}
 		typ, body, err := readFrame(p.rw)
 		p.mu.Lock()
 		if err != nil {
